@@ -28,6 +28,45 @@ def respell_sessions(confs):
     return out
 
 
+def move_alias_sessions(confs):
+    """moves between two directories under the SAME name when the destination already holds an entry with the alias the moved
+    entry carries in its source directory (both were the first of their prefix: LONGFI~1 twice; an entry literally named like
+    the alias; hash-form aliases after four collisions), in both directions, with sub-directories and the root as destination:
+    the destination needs a fresh alias - no two entries of a directory may share their 8.3 name"""
+    out = []
+    fams = [
+        (["A/Long File Name 1.txt"], ["B/Long File Name 2.txt"], [("A/Long File Name 1.txt", "B/Long File Name 1.txt")]),
+        (["A/Long File Name 1.txt"], ["B/LONGFI~1.TXT"], [("A/Long File Name 1.txt", "B/Long File Name 1.txt")]),
+        (["A/with space.dat", "A/with space too.dat"], ["B/with spaces.dat", "B/with space three.dat"],
+         [("A/with space.dat", "B/with space.dat"), ("A/with space too.dat", "B/with space too.dat"), ("B/with spaces.dat", "A/with spaces.dat")]),
+        (["A/name+plus.c"], ["name+plus.h.c", "NAME_P~1.C"], [("A/name+plus.c", "name+plus.c")]),
+        (["A/prefix collision %d.txt" % i for i in range(6)], ["B/prefix collision %d.bin.txt" % i for i in range(6)],
+         [("A/prefix collision %d.txt" % i, "B/prefix collision %d.txt" % i) for i in (5, 0, 3)]),
+        (["A/sub dir one/inner file number 1.txt"], ["B/sub dir two/inner file number 2.txt"],
+         [("A/sub dir one/inner file number 1.txt", "B/sub dir two/inner file number 1.txt"), ("A/sub dir one", "B/sub dir one"), ("B/sub dir two", "B/sub dir one/sub dir two")]),
+    ]
+    for fi, (src, dst, moves) in enumerate(fams):
+        label, size, fmt = confs[fi % len(confs)]
+        head = ["dev %d 0" % size, "wlog 0", fmt, "pages", "wlog 1", "mount 1 0 lossy"]
+        lines = ["create_dir 0 %s 1" % hexs("A"), "create_dir 0 %s 2" % hexs("B")]
+        h = 10
+        made = {"A", "B"}
+        for pth in src + dst:
+            parts = pth.split("/")
+            for k in range(1, len(parts)):
+                d = "/".join(parts[:k])
+                if d not in made:
+                    made.add(d); h += 1
+                    lines.append("create_dir 0 %s %d" % (hexs(d), h))
+            h += 1
+            lines += ["create_file 0 %s %d" % (hexs(pth), h), "write_pat %d 300 %d" % (h, h), "drop_file %d" % h]
+        lines.append("drop_all")
+        for a_, b_ in moves:
+            lines += ["rename 0 %s 0 %s" % (hexs(a_), hexs(b_)), "open_dir 0 %s 3" % hexs("B"), "list 3", "drop_dir 3"]
+        out.append(head + lines + ["list 0", "drop_all", "unmount", "mount 1 0 lossy", "open_dir 0 %s 4" % hexs("B"), "list 4", "drop_all", "unmount"])
+    return out
+
+
 def fold_table_tie(rep):
     """Proofs/DupLongProofs.wf_fold_agrees: the judge's folding (WfFold.wf_fold upper) agrees with the library's matching for
     EVERY table - provided both are run with the SAME table.  The judge loads the dump `uppertable` (sessions.upper_table), the
@@ -74,6 +113,7 @@ def run(rep, tier, seed):
     scripts += [sc_ for _, sc_ in sessions.matrix_sessions(rng, tier, lost_free=True, small_only=(tier == "quick"))]
     nresp = len(scripts)
     scripts += respell_sessions(confs)
+    scripts += move_alias_sessions(confs)
     # maximal FAT12 (thorough: and FAT16) volumes filled to the very top by ordinary writes, then removed / truncated / appended to
     topfill = []
     for bits in ((12,) if tier == "quick" else (12, 16)):
